@@ -4,7 +4,9 @@
 # on /repo's current working tree. Exit 0 holds / 1 VIOLATION / 2 could not analyse.
 cd "$(dirname "$0")" || exit 2
 export GOFLAGS=-mod=mod GOPROXY=off GOSUMDB=off GOTOOLCHAIN=local GOWORK=off
-(cd checker && go build -o ../bin/gedcheck ./cmd/gedcheck) || { echo "ANALYSIS-ERROR cannot build gedcheck"; exit 2; }
+mkdir -p bin
+# build to a private name and rename: several checks may run at once
+(cd checker && go build -o "../bin/gedcheck.$$" ./cmd/gedcheck && mv -f "../bin/gedcheck.$$" ../bin/gedcheck) || { rm -f "bin/gedcheck.$$"; echo "ANALYSIS-ERROR cannot build gedcheck"; exit 2; }
 tier="${2:-${VERIF_TIER:-quick}}"
 if [ "$tier" = thorough ]; then
   exec bin/gedcheck -prop "$1" -tier thorough
